@@ -380,6 +380,14 @@ def auto_discharge(ctx, b, h):
             lv = const_val(an.term_at(bi, len(blk['st']), t['len']))
             if iv is not None and lv is not None and 0 <= iv < lv:
                 return 'constant index %d into an array of length %d' % (iv, lv)
+        # a fixed-size table indexed by the discriminant of a fieldless enum with as many variants as the table has entries
+        if t['k'] == 'assert' and 'len' in t:
+            lv2 = const_val(an.term_at(bi, len(blk['st']), t['len']))
+            ix2 = strip_casts(idx, ('IntToInt',))
+            if ix2[0] == 'discr' and isinstance(lv2, int):
+                a2 = ctx.F.adt(ix2[2]) if len(ix2) > 2 and ix2[2] else None
+                if a2 and len(a2['variants']) == lv2 and all(not v.get('fields') for v in a2['variants']) and sorted(v.get('idx') for v in a2['variants']) == list(range(lv2)):
+                    return 'table of %d entries indexed by the discriminant of %s (%d fieldless variants)' % (lv2, ix2[2].split('::')[-1], lv2)
         # loop variable over a range that ends at len(base): `for i in s..e` or a while/loop counter, e being len(base),
         # a minimum one of whose operands is len(base), or -- for a base that is itself base0[a..b] -- b - a
         for st0, en in shared.index_loop_bounds(ctx, b, an, idx):
@@ -692,6 +700,21 @@ def r07_1(ctx):
             ent = TABLE.get(key)
             fk = '%s|%s %s' % (short(q), kind, detail)
             if ent is None:
+                # the description of an audited site changes when its variables are renamed or re-bound: a site of the same
+                # function and kind that satisfies the *verified guard* of an audited entry is that entry
+                alts = [v for k3, v in TABLE.items() if k3[0] == short(q) and k3[1] == kind and v[1] == 'guard' and k3 not in [(short(q), kind, d2) for (kk, d2) in groups if kk == kind]]
+                hit = None
+                for v in alts:
+                    try:
+                        if GUARDS[v[3]](ctx, b, lst) and len(lst) <= v[0]:
+                            hit = v
+                            break
+                    except Exception:
+                        pass
+                if hit is not None:
+                    by_class['guard'] = by_class.get('guard', 0) + len(lst)
+                    ctx.ok(R, fk + '|guard (re-described site)', b.loc(), hit[2])
+                    continue
                 # unaudited: every instance must be discharged automatically
                 und = [h for h in lst if auto_discharge(ctx, b, h) is None]
                 ctx.check(not und, R, fk + '|unaudited', call_line(b, (und or lst)[0][2]), 'new %s discharged automatically' % kind,
